@@ -28,3 +28,13 @@ CLAIMED["C09"] = {
   "note": "Does not decide the arithmetic inside each validator (e.g. < vs <=) nor partial weakening of a check that still depends on the operand. The checked-operand reference table (rules/tables/c09_checked_operands.json) was generated from the reference tree and reviewed. Trusts rustc MIR.",
   "technique": "dispatch-table evaluation per enum constructor + taint-to-rejecting-branch on MIR + API facts + compile-fail witnesses",
 }
+CLAIMED["C10"] = {
+  "text": "Decides two clauses of C10 over all sites / all DataType constructors: in arrow_ord, arrow_cmp, arrow_row and the aggregates no float-capable native value (f16/f32/f64, T::Native) is compared through PartialOrd/PartialEq or a primitive float comparison - every comparison goes through ArrowNativeTypeOp (whose float impls are checked to be total_cmp / to_bits), so the components cannot disagree on NaN and signed zero; and for each of the 41 DataType constructors the support predicates agree with the dispatch tables (can_rank <=> rank, can_sort_to_indices => sort_to_indices, sortable/rankable => make_comparator has an arm), evaluated three-valued on the MIR of the predicates and dispatchers.",
+  "note": "Does not decide that sort permutations, ranks and partition boundaries are right, nor null-ordering flags. Trusts rustc MIR and the driver's callee resolution.",
+  "technique": "type-resolved call inventory + three-valued evaluation of dispatch tables per enum constructor",
+}
+CLAIMED["C13"] = {
+  "text": "Decides the first clause of C13 on the full grid: both giant `match (from, to)` tables are evaluated for all 41x41 ordered pairs of DataType constructors (helper predicates evaluated on their own bodies, payload guards unknown); every pair for which can_cast_types is definitely true (542 today) reaches an implementation arm of cast_with_options rather than the unsupported-error arm. The suite samples a fixed list of arrays; this is the whole matrix.",
+  "note": "Only the support inclusion: value preservation, strict/safe duality, text and datatype-display round trips are value-level and not decided; pairs whose castability depends on payloads (nested/dictionary children) are reported as unknown, not judged.",
+  "technique": "three-valued evaluation of two dispatch tables over the constructor grid (MIR, custom rustc driver)",
+}
